@@ -93,7 +93,18 @@ class Termizer:
             if self.const_subst and (n.get("name") in self.const_subst or n.get("seg") in self.const_subst):
                 return self.const_subst.get(n.get("name"), self.const_subst.get(n.get("seg")))
             if n.get("res") == "def":
-                return ("def", strip_generics(F.defpath(n) or n.get("name", "?")))
+                dp = F.defpath(n)
+                nc = getattr(F, "new_consts", None)
+                if nc and dp in nc and self._cdepth < 3:
+                    # a constant introduced by an edit stands for its value
+                    self._cdepth += 1
+                    try:
+                        t = Termizer(F, nc[dp]).term(nc[dp].body)
+                    finally:
+                        self._cdepth -= 1
+                    if t[0] != "unk":
+                        return t
+                return ("def", strip_generics(dp or n.get("name", "?")))
             return ("def", n.get("seg", "?"))
         if k == "Field":
             bt_ = self.term(n["e"])
@@ -268,7 +279,20 @@ def _debug_stmt(F, st):
 COMMUTATIVE = {"+", "*", "&", "|", "^", "min", "max", "==", "!=", "&&", "||"}
 
 
+def _pow2_def(t):
+    return t[0] == "def" and t[1].endswith("BITS")
+
+
 def mk_op(op, l, r):
+    # shifting by lg of the word size / masking with the word size minus one are division, multiplication and
+    # remainder by the word size
+    if op in (">>", "<<") and r[0] == "call" and r[1] == "int::ilog2" and len(r[2]) == 1 and _pow2_def(r[2][0]):
+        return mk_op("/" if op == ">>" else "*", l, r[2][0])
+    if op == "&":
+        for a_, b_ in ((l, r), (r, l)):
+            if b_[0] == "op" and b_[1] == "-" and len(b_) == 4 and _pow2_def(b_[2]) and b_[3] == ("int", 1):
+                return mk_op("%", a_, b_[2])
+
     z = ("int", 0)
     if op in ("+", "|", "^") and l == z:
         return r
